@@ -254,7 +254,7 @@ def default_of(ty):
     return Sym("default::<%s>" % M.short(ty))
 
 
-@model(r"^core::result::Result::<T, E>::(map_err|unwrap|expect|is_ok|is_err|ok|unwrap_or_default|map)$")
+@model(r"^core::result::Result::<T, E>::(map_err|unwrap|expect|is_ok|is_err|ok|unwrap_or_default|map|unwrap_or)$")
 def m_result(I, st, info, args, depth):
     op = info["tdef"].split("::")[-1]
     out = []
@@ -287,6 +287,8 @@ def m_result(I, st, info, args, depth):
                 out.append((s2, "return", v))
         elif op == "unwrap_or_default":
             out.append((s2, "return", inner if is_ok else default_of(info["gargs"][0] if info["gargs"] else "")))
+        elif op == "unwrap_or":
+            out.append((s2, "return", inner if is_ok else args[1]))
     return out
 
 
@@ -1548,3 +1550,71 @@ def m_rng_fill(I, st, info, args, depth):
     s2.events.append(("rng_fill", repr(cur.length)))
     st.cond.append("rng fill fails")
     return [(s2, "return", ok(UNIT)), (st, "return", err(Sym("ring::error::Unspecified")))]
+
+
+# ------------------------------------------------------------------ map pipelines (C14.R3: payload = f(every stored claim))
+@model(r"^std::collections::hash::map::HashMap::<K, V, S(, A)?>::(iter|into_iter|drain)$")
+def m_map_iter(I, st, info, args, depth):
+    return ret(st, Struct("MapIter", None, {"map": deref(I, st, args[0]), "by": info["tdef"].split("::")[-1]}))
+
+
+@model(r"^core::iter::traits::iterator::Iterator::map$")
+def m_iter_map(I, st, info, args, depth):
+    it = deref(I, st, args[0])
+    if isinstance(it, Struct) and it.adt in ("MapIter", "Mapped"):
+        return ret(st, Struct("Mapped", None, {"inner": it, "f": args[1]}))
+    return m_safe_std(I, st, info, args, depth)
+
+
+def _map_source(it):
+    fs = []
+    while isinstance(it, Struct) and it.adt == "Mapped":
+        fs.append(it.fields["f"])
+        it = it.fields["inner"]
+    return it, list(reversed(fs))
+
+
+@model(r"^core::iter::traits::iterator::Iterator::collect$|^core::iter::traits::collect::FromIterator::from_iter$")
+def m_collect_map(I, st, info, args, depth):
+    it = deref(I, st, args[0])
+    src, fs = _map_source(it)
+    if isinstance(src, Struct) and src.adt == "MapIter":
+        m = src.fields["map"]
+        mname = getattr(m, "name", repr(m))
+        # evaluate the per-entry pipeline once on an arbitrary entry (k, v)
+        entry = Struct("(tuple)", None, {"0": Ptr(st.new_cell(Seq("entry.key", Aff.sym("len(entry.key)"), kind="str")), ()), "1": Ptr(st.new_cell(Sym("entry.value")), ())})
+        states = [(st.clone(), entry)]
+        for f in fs:
+            nxt = []
+            for s2, val in states:
+                for s3, kind, out in I.call_value(s2, f, [val], depth):
+                    if kind == "return":
+                        nxt.append((s3, out))
+            states = nxt
+        per = []
+        for s2, val in states:
+            val = deref(I, s2, val)
+            kd = describe(I, s2, val.fields.get("0")) if isinstance(val, Struct) else repr(val)
+            vv = deref(I, s2, val.fields.get("1")) if isinstance(val, Struct) else None
+            vd = (vv.adt.split("::")[-1] + "::" + vv.variant) if isinstance(vv, Struct) and vv.variant else getattr(vv, "name", repr(vv))
+            per.append((kd, vd, tuple(c for c in s2.cond if c not in st.cond), tuple(s2.unmodelled)))
+        res = Sym("collected(%s)" % mname, attrs={"source": mname, "per_entry": per})
+        st.events.append(("collect_map", mname, per))
+        return ret(st, res)
+    return None
+
+
+@model(r"^serde_json::ser::to_string$|^serde_json::ser::to_string_pretty$|^serde_json::ser::to_vec$")
+def m_json_to_string(I, st, info, args, depth):
+    src = deref(I, st, args[0])
+    return result_fork(I, st, Seq("json_text", Aff.sym("len(json_text)"), kind="str", attrs={"json_text_of": src}), "serde_json::Error", "to_string")
+
+
+# priority: models registered later in this file that must win over earlier generic ones
+def _prioritise(names):
+    front = [m for m in MODELS if m[1].__name__ in names]
+    rest = [m for m in MODELS if m[1].__name__ not in names]
+    MODELS[:] = front + rest
+
+
+_prioritise({"m_collect_map", "m_iter_map", "m_map_iter", "m_slice_get", "m_split_at_checked", "m_any", "m_push_str", "m_string_new", "m_fmt_write", "m_rng_fill"})
